@@ -129,7 +129,6 @@ for _lit in ("'ab'", "'abcdef'", "b'ab'", 'None', 'True', 'False', '0.0', '1.0',
 # programs that reproduce the recorded known findings (genuine defects of the pinned tree that were not repaired): tagged so that they
 # are reported as KNOWN-FINDING and any OTHER failure is still a violation
 KNOWN_PROGRAMS = {
-    "class Base:\n    marker='from Base'\nobject=Base\nclass Derived(object):\n    pass\nprint(Derived.marker)": 'shadowed-object-base-removed',
     "def noisy():\n    print('annotation evaluated')\n    return int\ndef annotated(x: noisy()) -> noisy():\n    return x\nprint(annotated(1))": 'annotation-with-side-effect-removed',
 }
 # control flow: an early return inside every kind of nested suite, observable through what runs afterwards
@@ -154,7 +153,8 @@ PROGRAMS.append('def many_names():\n' + '\n'.join(_many) + '\n    i=1000\n    j=
 PROGRAMS.append('\n'.join('global_value_%d=%d' % (k, k) for k in range(60)) + '\ni=1000\ndef use_globals():\n    return ' +
                 '+'.join('global_value_%d*global_value_%d' % (k, k) for k in range(60)) + '+i\nprint(use_globals())')
 PROGRAMS += list(KNOWN_PROGRAMS)
-# fixed in 7a1a7a4 / f054637: a regression is an ordinary violation
+# fixed in 7a1a7a4 / f054637 / 3bb1e82: a regression is an ordinary violation
+PROGRAMS.append("class Base:\n    marker='from Base'\nobject=Base\nclass Derived(object):\n    pass\nprint(Derived.marker)")
 PROGRAMS.append("value='global value'\ndef outer():\n    value='function value'\n    class Inner:\n        seen=value\n        value='class value'\n    return Inner.seen\nprint(outer())")
 PROGRAMS.append("def collect(a, /, **kw):\n    return a, sorted(kw.items())\nprint(collect(1, a=2))")
 
